@@ -298,7 +298,16 @@ pub fn c10_cases(rng: &mut Rng, tier: &str) -> (Vec<Case>, bool) {
             if w.poisoned() {
                 break;
             }
-            match rng.below(9) {
+            match rng.below(10) {
+                9 => {
+                    // a failure caused by the nesting cap (49+ levels), possibly several
+                    for _ in 0..rng.range(1, 3) {
+                        let n = rng.range(49, 60);
+                        let text = if rng.chance(1, 2) { format!("PRINT {}1{}", "(".repeat(n), ")".repeat(n)) } else { format!("{}PRINT 1", "IF 1 THEN ".repeat(n)) };
+                        w.start(&text);
+                    }
+                    kinds.push("nesting-failure");
+                }
                 0 => {
                     w.start("RUN");
                     let mut nr = 0;
@@ -513,11 +522,34 @@ pub fn c11_cases(rng: &mut Rng, tier: &str) -> (Vec<Case>, bool) {
                 1 => checks.push(format!("reply-starts {} err_ReturnWithoutGosub", pi)),
                 2 => checks.push(format!("reply-starts {} err_NextWithoutFor", pi)),
                 3 => {
-                    // READ starts again from the first DATA item of the edited program
-                    let touches_data_line = edit.trim() == "2" || edit.starts_with("2 ");
-                    let first = if edit_kind == 3 { "999" } else if touches_data_line { "" } else { "111" };
-                    if !first.is_empty() {
-                        checks.push(format!("reply-is {} P:{}", ti, crate::imp::hex(&format!("{}\n", first))));
+                    // READ starts again from the first DATA item of the EDITED program
+                    let mut lines: std::collections::BTreeMap<u64, String> = p.lines.iter().cloned().collect();
+                    let en: u64 = edit.trim().split(' ').next().unwrap().parse().unwrap();
+                    let body = edit.trim()[edit.trim().split(' ').next().unwrap().len()..].trim().to_string();
+                    if body.is_empty() {
+                        lines.remove(&en);
+                    } else {
+                        lines.insert(en, body);
+                    }
+                    let mut first: Option<String> = None;
+                    'outer: for (_, t) in &lines {
+                        let toks = abasic_core::verif_hooks::tokenize(t, 0);
+                        for part in toks.split(' ') {
+                            if let Some(d) = part.strip_prefix("D:") {
+                                let items = d.rsplitn(2, '@').last().unwrap_or("");
+                                first = Some(items.split(',').next().unwrap_or("").to_string());
+                                break 'outer;
+                            }
+                        }
+                    }
+                    match first {
+                        None => checks.push(format!("reply-starts {} err_OutOfData", pi)),
+                        Some(item) if item.starts_with('n') => {
+                            let v = crate::imp::dec_f64(&item[1..]);
+                            checks.push(format!("reply-is {} ok", pi));
+                            checks.push(format!("reply-is {} P:{}", ti, crate::imp::hex(&format!("{}\n", v))));
+                        }
+                        Some(_) => checks.push(format!("reply-starts {} err_DataTypeMismatch", pi)),
                     }
                 }
                 4 => {
